@@ -321,12 +321,14 @@ class E1:
             # checked builds only and are dropped), with every allocation-bounded atom <= isize::MAX
             from .lin import State, USIZE_MAX
             facts_ = [r for r in rels if r[0] in ("lt", "le", "eq", "ne") or (r[0] == "truth" and not (isinstance(uncast(r[1]), tuple) and uncast(r[1])[0] == "ovf"))]
-            st = State(facts_)
+            st = State(facts_, facts=self.facts)
             goal = ("le", bb, a) if op == "Sub" else ("le", ("bin", "Add", a, bb), ("const", USIZE_MAX))
             st.lin.relation(goal)                      # register the goal's atoms
             for e_ in list(st.lin.names):
                 if self.is_ab(e_, rels):
                     st.add(("le", e_, ("const", ISIZE_MAX)))
+                else:
+                    st.add(("le", e_, ("const", USIZE_MAX)))        # a 64-bit value
             if st.entails(goal):
                 return "ok", "%s by the dominating guards in the linear-inequality domain (allocation-bounded atoms <= isize::MAX)" % (
                     "%s <= %s" % (short(bb), short(a)) if op == "Sub" else "%s + %s <= usize::MAX" % (short(a), short(bb))), desc, True
